@@ -48,7 +48,7 @@ try:
     m = next((x for x in metas if str(x.get("change")) == str(n)), metas[0] if metas else {})
 except Exception as e:
     m = {"note": f"author meta.json unreadable: {e}"}
-log = open(dst + "/confirm.log").read()
+log = open(dst + "/confirm.log", errors="replace").read()
 m["property"] = pid
 m["author"] = "fresh sub-agent given only the property text and a scratch worktree of /repo"
 m["confirmed_by_coordinator"] = [l[7:] for l in log.splitlines() if l.startswith("RESULT ")]
